@@ -3,9 +3,16 @@
 package main
 
 import (
+	"encoding/json"
 	"flag"
 	"fmt"
 	"os"
+	"os/exec"
+	"path/filepath"
+	"strings"
+	"sync"
+
+	"verif/harness/hk"
 )
 
 type opts struct {
@@ -15,6 +22,7 @@ type opts struct {
 	cases    string
 	n        int
 	realproc bool
+	child    bool
 }
 
 var families = map[string]func(o opts) error{}
@@ -32,6 +40,7 @@ func main() {
 	fs.StringVar(&o.out, "out", ".", "output directory")
 	fs.StringVar(&o.cases, "cases", "", "JSON file of cases to run instead of generating")
 	fs.IntVar(&o.n, "n", 0, "override number of generated cases")
+	fs.BoolVar(&o.child, "child", false, "internal: run the given cases in this process")
 	fs.Parse(os.Args[2:])
 	f, ok := families[fam]
 	if !ok {
@@ -42,4 +51,43 @@ func main() {
 		fmt.Fprintln(os.Stderr, "hx:", err)
 		os.Exit(3)
 	}
+}
+
+// fanOut runs n cases each in its own child hx process (at most par at a time) and gathers their
+// lines into sink with ids <prefix><index>.  A child that dies is reported as an undecodable case.
+func fanOut(o opts, family string, prop int, prefix string, n int, get func(i int) interface{}, sink *hk.Sink, par int) error {
+	self, _ := os.Executable()
+	var wg sync.WaitGroup
+	sem := make(chan struct{}, par)
+	for i := 0; i < n; i++ {
+		wg.Add(1)
+		sem <- struct{}{}
+		go func(i int) {
+			defer wg.Done()
+			defer func() { <-sem }()
+			c := get(i)
+			tmp, _ := os.CreateTemp("", "hx-fan-*.json")
+			b, _ := json.Marshal([]interface{}{c})
+			tmp.Write(b)
+			tmp.Close()
+			defer os.Remove(tmp.Name())
+			outdir, _ := os.MkdirTemp("", "hx-fan-out")
+			defer os.RemoveAll(outdir)
+			cmd := exec.Command(self, family, "-child", "-cases", tmp.Name(), "-out", outdir, "-seed", fmt.Sprint(o.seed), "-tier", o.tier)
+			out, err := cmd.CombinedOutput()
+			lines, _ := os.ReadFile(filepath.Join(outdir, family+".lines"))
+			parts := strings.SplitN(strings.TrimRight(string(lines), "\n"), "\t", 4)
+			if err != nil || len(parts) != 4 {
+				msg := string(out)
+				if len(msg) > 300 {
+					msg = msg[len(msg)-300:]
+				}
+				sink.PutRaw(prop, fmt.Sprintf("%s%d", prefix, i), "(child-failed)", "(child-failed)", map[string]interface{}{"case": c, "child_output": msg})
+				return
+			}
+			sink.PutRaw(prop, fmt.Sprintf("%s%d", prefix, i), parts[2], parts[3], c)
+		}(i)
+	}
+	wg.Wait()
+	return nil
 }
